@@ -181,6 +181,8 @@ fn case_listing_pure(rows: &[Row]) -> Toks {
 
 include!("../c20_pure.rs");
 
+const PRIME: i64 = 7;
+
 /// gauges: a store whose rows expire at now+off for the given offsets
 fn case_gauges(offsets: &[i64]) -> Option<Toks> {
     let mut pool = Pool::new_in_memory().ok()?;
@@ -195,7 +197,8 @@ fn case_gauges(offsets: &[i64]) -> Option<Toks> {
             let dur = std::time::Duration::from_secs(1000);
             let before = now_secs();
             pool.allocate_address(&[1, i as u8, (i >> 8) as u8], Some(ip), &addrs, dur, dur, &[]).ok()?;
-            let delta = (before as i64 + 1000) - (t0 as i64 + off);
+            // placed PRIME seconds later than wanted; moved into place after the gauges were read once
+            let delta = (before as i64 + 1000) - (t0 as i64 + off + PRIME);
             pool.verif_conn()
                 .execute(
                     "UPDATE leases SET start=start-?1, expiry=expiry-?1 WHERE address=?2",
@@ -203,6 +206,11 @@ fn case_gauges(offsets: &[i64]) -> Option<Toks> {
                 )
                 .ok()?;
         }
+        // the gauges are read once, then time passes with no DHCP traffic at all (the stored
+        // timestamps move PRIME seconds into the past), then they are read again: the second
+        // reading is the one that is judged -- it must describe the store as it is NOW
+        let _ = catch(|| pool.get_pool_metrics());
+        pool.verif_conn().execute("UPDATE leases SET start=start-?1, expiry=expiry-?1", rusqlite::params![PRIME]).ok()?;
         let exps: Vec<i64> = {
             let conn = pool.verif_conn();
             let mut st = conn.prepare("SELECT expiry FROM leases ORDER BY address").ok()?;
